@@ -97,7 +97,8 @@ func (s *sentinel) rebuild() {
 	os.RemoveAll(s.root)
 	must(os.MkdirAll(s.path("dir"), 0755))
 	must(os.MkdirAll(s.path("tmp"), 0755))
-	must(os.WriteFile(s.PS(), []byte(secret+"\n"), 0644))
+	// a valid Lua chunk: dofile/loadfile/loadlua on it hand the secret over
+	must(os.WriteFile(s.PS(), []byte("return \""+secret+"\"\n"), 0644))
 	must(os.WriteFile(s.PG(), []byte(granted+"\n"), 0644))
 	must(os.WriteFile(s.PGW(), nil, 0644))
 	must(os.WriteFile(s.path("mod.lua"), []byte("C08_MOD_LOADED = true\nreturn \""+secret+"\"\n"), 0644))
